@@ -1,15 +1,16 @@
 #!/bin/bash
 # usage: seed_test.sh [dir ...] — every kept seeded change (and fire mutant) must make the check of its property fail.
+REPO=${REPO:-/repo}; export VERIF_REPO=$REPO
 cd /verif
 DIRS=("$@"); [ ${#DIRS[@]} -eq 0 ] && DIRS=(seeded/*/ mutants/fire/*.diff)
 bad=0
 for d in "${DIRS[@]}"; do
   if [ -d "$d" ]; then P=$(readlink -f "$d/patch.diff"); ID=$(python3 -c "import json;print(json.load(open('$d/meta.json'))['property'])"); NAME=$(basename "$d")
   else P=$(readlink -f "$d"); NAME=$(basename "$d" .diff); ID=${NAME%%-*}; fi
-  git -C /repo diff --quiet || { echo "/repo dirty"; exit 2; }
-  git -C /repo apply "$P" || { echo "NOAPPLY $NAME"; bad=1; continue; }
+  git -C $REPO diff --quiet || { echo "$REPO dirty"; exit 2; }
+  git -C $REPO apply "$P" || { echo "NOAPPLY $NAME"; bad=1; continue; }
   out=$(./check "$ID" 2>&1)
-  git -C /repo checkout -- . ; git -C /repo clean -fdq -e target
+  git -C $REPO checkout -- . ; git -C $REPO clean -fdq -e target
   if echo "$out" | grep -q "^VIOLATION property=$ID"; then
     echo "caught  $NAME by $(echo "$out" | grep 'violated:' | sed 's/.*key=//' | tr '\n' ' ' | cut -c1-150)"
   else
